@@ -46,19 +46,31 @@ def read_vectors(path):
     with open(path, encoding='utf-8') as f:
         for line in f:
             if line.startswith(pre) and not line.startswith(pre + '"'):
-                out.append(json.loads(json.loads(line[len(pre) - 1:])))
+                v = json.loads(json.loads(line[len(pre) - 1:]))
+                # the variant TLC assigned to the vector: spelling, embedding, id shape, header layout
+                v['sp'] = dict(v.get('sp', {}), emb=v.pop('emb', PLAIN['emb']), idsh=v.pop('idsh', PLAIN['idsh']), lay=v.pop('lay', 0))
+                out.append(v)
     return out
 
 
-PLAIN = {'syn': 'dot', 'ref': 'l', 'decl': 'l'}
+PLAIN = {'syn': 'dot', 'ref': 'l', 'decl': 'l', 'emb': 'toJSON(@)', 'idsh': "${{ format('dyn{0}', 1) }}", 'lay': 0}
 
 
 def site_name(v, verdict):
     sp = v.get('sp', PLAIN)
     if sp == PLAIN:
         return 'scope:%s:%s:%s' % (v['ref']['ctx'], v['site']['k'], verdict)
-    # the plain spelling of the same vector is always run too: a finding that only shows in this one is about spelling
-    return 'scope:%s:%s:%s:%s-ref%s-decl%s' % (v['ref']['ctx'], v['site']['k'], verdict, sp['syn'], sp['ref'], sp['decl'])
+    # the plain rendering of the same vector is always run too: a finding that only shows in this one is about the variant
+    parts = []
+    if (sp['syn'], sp['ref'], sp['decl']) != ('dot', 'l', 'l'):
+        parts.append('%s-ref%s-decl%s' % (sp['syn'], sp['ref'], sp['decl']))
+    if sp['emb'] != PLAIN['emb']:
+        parts.append('embedded')
+    if sp['idsh'] != PLAIN['idsh'] and any('$' in j['steps'] for j in v['sh']['jobs']):
+        parts.append('idshape')
+    if sp['lay']:
+        parts.append('layout%d' % sp['lay'])
+    return 'scope:%s:%s:%s:%s' % (v['ref']['ctx'], v['site']['k'], verdict, '+'.join(parts))
 
 
 def run_vectors(sd, vecs, reps):
@@ -86,16 +98,38 @@ def run(ck, tier):
         if key not in seen:
             seen.add(key)
             uniq.append(v)
-    # every vector is rendered in the plain spelling (dotted, lower case) and in the spelling TLC assigned to it
-    # (index syntax and/or upper-case reference and/or upper-case declarations): same predicted verdict
-    uniq = [dict(v, sp=PLAIN) for v in uniq] + [v for v in uniq if v['sp'] != PLAIN]
-    random.Random(vplib.seed()).shuffle(uniq)     # the seed decides which vectors share a worker, nothing else
+    # every vector is rendered in the variant TLC assigned to it: spelling (index syntax / upper case), embedding (place
+    # of the reference in an expression tree), shape of expression step ids, header layout; a quarter also plainly
+    # (dotted lower-case reference as the whole argument of toJSON(), step ids that are one ${{ }}, sections after `on:`).
+    # The predicted verdict is the same.  A vector that fails is re-run plainly and with each dimension alone so that
+    # the violation names what it is about.
+    assigned = [v for v in uniq if v['sp'] != PLAIN]
+    # every (context, site kind, verdict) class must meet every embedding TLC uses: where the assignment leaves a gap,
+    # further vectors of the class are rendered with the missing embeddings (otherwise plain)
+    embs = sorted({v['sp']['emb'] for v in uniq})
+    cls = {}
+    for v in uniq:
+        cls.setdefault((v['ref']['ctx'], v['site']['k'], v['def']), []).append(v)
+    fill = []
+    for key in sorted(cls, key=str):
+        members = sorted(cls[key], key=lambda v: json.dumps([v['sh'], v['site'], v['ref']], sort_keys=True))
+        missing = [e for e in embs if e not in {v['sp']['emb'] for v in members}]
+        for i, e in enumerate(missing):
+            fill.append(dict(members[(i * 7) % len(members)], sp=dict(PLAIN, emb=e)))
+    ck.cov['renderings_added_for_embedding_coverage'] = len(fill)
+    rng = random.Random(vplib.seed())
+    rng.shuffle(uniq)                             # the seed decides which vectors are also rendered plainly
+    nplain = len(uniq) if tier == 'thorough' else len(uniq) // 4
+    uniq = [dict(v, sp=PLAIN) for v in uniq[:nplain]] + [v for v in uniq[nplain:] if v['sp'] == PLAIN] + assigned \
+        + [v for v in fill if v['sp'] != PLAIN]
+    rng.shuffle(uniq)
     reps = 0     # every permutation of the textual (= visiting) order of the jobs
     outs = run_vectors(sd, uniq, reps)
     if len(outs) != len(uniq):
         raise Inconclusive('harness returned %d results for %d vectors' % (len(outs), len(uniq)))
     nundef = 0
     evals = 0
+    failing = []
     for o in outs:
         v = uniq[o['id']]
         if o['other']:
@@ -105,8 +139,37 @@ def run(ck, tier):
         if want:
             nundef += 1
         if any(s != want for s in o['seen']):
+            failing.append((v, o))
+    # attribution: the first failing variants are re-run plainly and with one dimension of the variant at a time
+    blame = {}
+    trials = []
+    for n, (v, o) in enumerate(failing[:400]):
+        if v['sp'] == PLAIN:
+            continue
+        sp = v['sp']
+        for name, t in (('plain', PLAIN),
+                        ('%s-ref%s-decl%s' % (sp['syn'], sp['ref'], sp['decl']), dict(PLAIN, syn=sp['syn'], ref=sp['ref'], decl=sp['decl'])),
+                        ('embedded', dict(PLAIN, emb=sp['emb'])), ('idshape', dict(PLAIN, idsh=sp['idsh'])),
+                        ('layout%d' % sp['lay'], dict(PLAIN, lay=sp['lay']))):
+            if name == 'plain' or t != PLAIN:
+                trials.append((n, name, dict(v, sp=t)))
+    if trials:
+        touts = run_vectors(vplib.subdir('c05blame'), [t[2] for t in trials], reps)
+        for (n, name, tv), to in zip(trials, touts):
+            if not to['other'] and any(s != (not tv['def']) for s in to['seen']):
+                blame.setdefault(n, []).append(name)
+    for n, (v, o) in enumerate(failing):
+        want = not v['def']
+        if True:
             verdict = 'missed' if want else 'false-positive'
-            ck.violation(site_name(v, verdict),
+            names = blame.get(n)
+            if v['sp'] == PLAIN or (names and 'plain' in names):
+                site = 'scope:%s:%s:%s' % (v['ref']['ctx'], v['site']['k'], verdict)
+            elif names:
+                site = 'scope:%s:%s:%s:%s' % (v['ref']['ctx'], v['site']['k'], verdict, '+'.join(names))
+            else:
+                site = site_name(v, verdict)
+            ck.violation(site,
                          'reference %s at site %s: the scope rules say %s, the real linter %s (%d of %d runs)'
                          % (o_ref(v), v['site'], 'not defined' if want else 'defined',
                             'does not report it' if want else 'reports ' + '; '.join(o['msgs'][:1]),
@@ -138,6 +201,16 @@ def run(ck, tier):
         key = v['ref']['ctx'] + '@' + v['site']['k']
         by[key] = by.get(key, 0) + 1
     ck.cov['vectors_by_context_and_site'] = by
+    # every (context, site kind, verdict) class should meet every embedding
+    cls = {}
+    for v in uniq:
+        cls.setdefault((v['ref']['ctx'], v['site']['k'], v['def']), set()).add(v['sp']['emb'])
+    if len(embs) < 19:
+        raise Inconclusive('only %d embeddings occur in the vectors' % len(embs))
+    nemb = len(embs)
+    short = sorted('%s@%s:%s(%d)' % (k[0], k[1], 'def' if k[2] else 'undef', len(x)) for k, x in cls.items() if len(x) < nemb)
+    ck.cov['embeddings'] = nemb
+    ck.cov['classes_not_meeting_every_embedding'] = short
     for o in outs[:2] + [o for o in outs if o['reported']][:2]:
         v = uniq[o['id']]
         ck.sample({'site': v['site'], 'ref': v['ref'], 'defined': v['def'], 'reported': o['seen'], 'messages': o['msgs'][:1]})
@@ -146,8 +219,8 @@ def run(ck, tier):
         'a job never needs itself (the code skips the entry, DESIGN A.2 does not speak about it)',
         'steps referenced by id are run: steps or unknown actions (outputs are a free map); callee-declared outputs belong to C14',
         'references are wrapped in toJSON() so that only the scope diagnostic can arise',
-        'each vector is linted in the plain spelling and in ONE of the 7 other spellings (index syntax / upper-case reference / '
-        'upper-case declarations) assigned by the specification; all 8 spellings occur for every context and site kind',
+        'each vector is linted in the plain rendering and in ONE variant assigned by the specification: one of 8 spellings (index syntax / '
+        'upper-case reference / upper-case declarations) x one of 19 embeddings x one of 5 expression-id shapes x one of 4 header layouts',
         'a literally known step id keeps its fixed property set even when another step id is an expression',
         'rule objects are created per workflow: per-workflow state (inputsTy, secretsTy, jobsTy) is never reused',
         'Go map iteration order cannot be forced: shapes with several jobs are linted several times (sound, not complete); '
